@@ -290,6 +290,7 @@ impl<'a> GeneratorState<'a> {
                                 }
 
                                 self.flags = FlagsState::Unknown;
+                                self.carry_flag_ok = false;
                                 // Manage return value
                                 let mut return_tmp = false;
                                 if f.return_type.is_some() {
@@ -327,6 +328,7 @@ impl<'a> GeneratorState<'a> {
                                         // The result lives in A: whatever is evaluated next
                                         // must save it first
                                         self.acc_in_use = true;
+                                        self.acc_is_call_result = true;
                                         Ok(ExprType::A(f.return_signed))
                                     };
                                 }
@@ -1068,6 +1070,10 @@ impl<'a> GeneratorState<'a> {
                             .syntax_error("Function must return a value", pos));
                     } else {
                         self.generate_assign(&ExprType::A(f.return_signed), &e, pos, false)?;
+                        // Side effects postponed to the end of the statement (x++, the saved Y)
+                        // must happen before the function is left; none of them touches A
+                        self.acc_in_use = true;
+                        self.purge_deferred_plusplus_and_savey()?;
                     }
                 } else {
                     if e != ExprType::Nothing {
@@ -1250,6 +1256,7 @@ impl<'a> GeneratorState<'a> {
 
         self.acc_in_use = false;
         self.tmp_in_use = false;
+        self.acc_is_call_result = false;
 
         if let Some(label) = &code.label {
             self.label(&format!(".{}", label))?;
